@@ -171,6 +171,18 @@ def call_builtin(eng, name, args, kwargs, st, node):
             ln = VV.any_len(v.z)
             st.pc.append(ln >= 0)
             return [(st, vint(ln))]
+        if v.k == 'any':
+            t = VV.tag_of(v.z)
+            sized = z3.Or(*[t == TAGS[x] for x in ('str', 'bytes', 'list', 'tuple', 'bytearray', 'memoryview')])
+            outs = []
+            for st1, ok in eng.branch(st, sized, node):
+                if ok:
+                    ln = VV.any_len(v.z)
+                    st1.pc.append(ln >= 0)
+                    outs.append((st1, vint(ln)))
+                else:
+                    outs.append((st1, Raised(eng.make_exc('TypeError', node=node))))
+            return outs
         if v.k == 'seq':
             return [(st, vint(v.extra['len']))]
         if v.k == 'obj' and eng.contract.opts.get('opaque_algebra'):
